@@ -147,7 +147,8 @@ def make_function(spec):
     if doc != 'none':
         f.__doc__ = DOCS[doc]
     names = {'pos': [n for n, k, _ in params if k == 'pos'], 'kwo': [n for n, k, _ in params if k == 'kwo'],
-             'va': spec['va'], 'vk': spec['vk'], 'defaults': defaults, 'src': src}
+             'va': spec['va'], 'vk': spec['vk'], 'defaults': defaults, 'src': src,
+             'sig': inspect.signature(f)}        # taken before anything wraps f
     return f, names
 
 
@@ -295,6 +296,9 @@ def drive(x, is_async):
     try:
         x.send(None)
     except StopIteration as e:
+        if inspect.iscoroutine(e.value):
+            e.value.close()
+            return ('ok', '<a coroutine that was never awaited>')
         return ('ok', e.value)
     x.close()
     return ('coroutine suspended',)
@@ -412,7 +416,7 @@ class Applied:
             raise
         except Exception as e:
             self.error = e
-        self.sig_f = inspect.signature(f)
+        self.sig_f = names['sig']
         self.nontrivial_sig = bool(names['defaults']) or bool(names['kwo']) or not self.plain
 
     # -- reference signature ------------------------------------------------------------------------
@@ -528,7 +532,8 @@ def check_variant(t, spec, variant, f, names, part, calls=None):
         case = dict(base_case)
         if call is not None:
             case['call'] = {'npos': call[0], 'kw': list(call[1])}
-        t.bad('C13|fn:wraps|%s|%s' % (shape, what), case, expected, observed, tags=tags)
+        # workers send the tally through a pipe: keep only plain data (objects -> repr)
+        t.bad('C13|fn:wraps|%s|%s' % (shape, what), case, core.jsonable(expected), core.jsonable(observed), tags=tags)
 
     ap = Applied(spec, variant, f, names)
     t.count(nontrivial=ap.nontrivial_sig, sample=base_case)
